@@ -76,7 +76,7 @@ fn gen_c21(rng: &mut Rng, regime: &str, tier: Tier) -> Value {
                 p["n"] = json!(rng.urange(2, 3));
             }
             if regime == "c40" {
-                p["ack"] = json!(*rng.pick(&["all", "all", "none", "newest", "newest", "dup", "unknown", "badsub"]));
+                p["ack"] = json!(*rng.pick(&["all", "all", "none", "newest", "newest", "dup", "unknown", "badsub", "twice"]));
             }
             if regime == "c26" {
                 p["ts"] = json!(*rng.pick(&["now", "now", "past", "future", "null", "min", "max"]));
